@@ -211,7 +211,7 @@ fn portable_case(rng: &mut Rng, rep: &mut Report, case_id: u64) {
             fields: if rng.chance(1, 4) { None } else { Some(gen_fields(rng, false)) },
             docs: if rng.flip() { Some((false, strs(rng, rng.clone().below(3)))) } else { None },
             unit_ctor: rng.chance(1, 5),
-            discriminant: if rng.chance(1, 4) { Some(rng.next_u64()) } else { None },
+            discriminant: if rng.chance(1, 3) { Some(if rng.flip() { rng.below(300) as u64 } else { rng.next_u64() }) } else { None },
         })
         .collect();
     let case = json!({"case": case_id, "form": "portable", "path": segs, "params": params, "docs": tdocs, "variant": is_variant, "fields": format!("{:?}", fields), "variants": format!("{:?}", variants)});
@@ -549,7 +549,7 @@ fn meta_case(rng: &mut Rng, rep: &mut Report, case_id: u64) {
                 fields: if rng.chance(1, 4) { None } else { Some(gen_fields(rng, true)) },
                 docs: if rng.flip() { Some((rng.flip(), strs(rng, rng.clone().below(3)))) } else { None },
                 unit_ctor: rng.chance(1, 5),
-                discriminant: if rng.chance(1, 4) { Some(rng.next_u64()) } else { None },
+                discriminant: if rng.chance(1, 3) { Some(if rng.flip() { rng.below(300) as u64 } else { rng.next_u64() }) } else { None },
             };
             let m = v.fields.as_ref().map(|(_, f)| f.iter().map(to_m).collect()).unwrap_or_default();
             (v, m)
@@ -567,6 +567,8 @@ fn meta_case(rng: &mut Rng, rep: &mut Report, case_id: u64) {
         };
         let b = if case_id % 3 == 1 { b.type_params(tp.into_iter().filter(|_| true)) } else { b.type_params(tp) };
         let b = match tdocs {
+            Some((true, d)) if !DOCS_ON && case_id % 3 == 0 => b.docs_always(d).docs(&["given through the gated setter"]),
+            Some((true, d)) if !DOCS_ON && case_id % 3 == 1 => b.docs(&["given through the gated setter"]).docs_always(d),
             Some((true, d)) => b.docs_always(d),
             Some((false, d)) => b.docs(d),
             None => b,
@@ -593,7 +595,12 @@ fn meta_case(rng: &mut Rng, rep: &mut Report, case_id: u64) {
                         Some((false, _)) => vb.fields(build_mfields_unnamed(&mf)),
                         None => vb,
                     };
+                    // without the docs feature the gated setter is documented to do nothing: next to an `always` setter,
+                    // before or after it, the always-docs stay (with the feature on, which of two setters wins is not specified)
+                    let gated_too = !DOCS_ON && v2.index % 3 == 0;
                     match vdocs {
+                        Some((true, d)) if gated_too && v2.index % 2 == 0 => vb.docs_always(d).docs(&["given through the gated setter"]),
+                        Some((true, d)) if gated_too => vb.docs(&["given through the gated setter"]).docs_always(d),
                         Some((true, d)) => vb.docs_always(d),
                         Some((false, d)) => vb.docs(d),
                         None => vb,
